@@ -75,8 +75,11 @@ const POOL: &[PoolVal] = &[
     // forcing must all be relative to the position
     PoolVal { src: "(stream([10, 20, 30]) drop 2)", big: false },
     PoolVal { src: "tail(stream(\"abc\"))", big: false },
+    // lazy streams stored INSIDE containers (index assignment has to force them at every level)
+    PoolVal { src: "[(1 to 3), 5]", big: false },
+    PoolVal { src: "{1: (1 to 3), \"a\": [(1 to 2)]}", big: false },
 ];
-const QUICK_POOL: &[usize] = &[0, 1, 2, 3, 5, 7, 8, 9, 10, 13, 14, 16, 17, 18, 19, 20, 22, 23, 25, 27, 28, 29, 30, 32, 34, 35, 36, 37, 38, 39];
+const QUICK_POOL: &[usize] = &[0, 1, 2, 3, 5, 7, 8, 9, 10, 13, 14, 16, 17, 18, 19, 20, 22, 23, 25, 27, 28, 29, 30, 32, 34, 35, 36, 37, 38, 39, 40, 41];
 
 #[derive(Clone)]
 struct Case {
@@ -260,6 +263,17 @@ const STMT_TEMPLATES: &[&str] = &[
     "a, b = A; [a, b]",
     "f := \\a, b -> [a, b]; f(...A)",
     "memo := memoize(\\k -> 1); memo(A)",
+    "x := A; x[0][1] = C; x",
+    "x := A; x[0][1] += C; x",
+    "x := A; x[1][0] = C; x",
+    "x := A; every x[0][0:2] = C; x",
+    "x := A; x[\"a\"][0][1] = C; x",
+    "x := [A, B]; x[0][0] = C; x",
+    "x := {1: A}; x[1][0] = C; x",
+    // two struct definitions with the same name and a different number of fields alive at once: an accessor
+    // of one applied to an instance of the other is a catchable error
+    "struct Pt(px, py); mk := \\ -> (struct Pt(px); Pt(A)); q := mk(); [try py(q) catch e -> 0, try q[py] catch e -> 0, try (q[py] = B) catch e -> 0, try q{py = B} catch e -> 0, try (q[py] += 1) catch e -> 0]",
+    "struct Pt(px); mk := \\ -> (struct Pt(px, py, pz); Pt(A, B, C)); q := mk(); [try px(q) catch e -> 0, try q[px] catch e -> 0]",
 ];
 
 /// the statement sweep's programs, in a fixed order (index = case id)
@@ -466,11 +480,11 @@ fn main() {
     install_quiet_panic_hook();
     let mut rep = Report::new("C14", &args);
     rep.rule = "sweep: every global builtin (minus the file/process/network/clock/sleep/stdin list) x every tuple of 0..2 arguments \
-                from the pool (30 values quick / 40 thorough: null, ints incl. +-2^63 / 2^64, rational, floats incl. NaN and inf, \
+                from the pool (32 values quick / 42 thorough: null, ints incl. +-2^63 / 2^64, rational, floats incl. NaN and inf, \
                 complex, strings incl. non-ASCII, lists, dicts with and without default, vectors, bytes incl. non-UTF-8, finite \
                 stream, closures, builtins, containers with an unhashable value nested inside, finite streams whose production raises part-way, advanced list-backed streams) plus sampled 3-tuples, called through Func::run under catch_unwind in child \
                 processes with a 8 s per-case watchdog and a 6 GiB address-space limit; numeric-size builtins are skipped when an \
-                argument is astronomically large. Then try/catch containment through source programs, the statement sweep (47 statement templates x pool tuples, also in watchdogged child processes) and fault-injected \
+                argument is astronomically large. Then try/catch containment through source programs, the statement sweep (56 statement templates x pool tuples, also in watchdogged child processes) and fault-injected \
                 generated programs. non-trivial = a call that raised or returned normally with >= 1 argument; distinct = \
                 distinct call text"
         .into();
